@@ -774,7 +774,11 @@ def check(prop, tier):
             unconfirmed.append("violation %s %s from seed %d did not reproduce in a fresh process (%d/2)" % (p, c, info["seed"], ok))
             continue
         log = []
-        small = shrink(info["flavour"], text, p, c, info["profile"], budget=int(os.environ.get("VERIF_SHRINK_BUDGET", "250")), log=log)
+        # a change that breaks everything shows up under dozens of classes: the first few are minimised, the rest are reported as they were found
+        if viol_count >= int(os.environ.get("VERIF_MAX_SHRUNK", "6")):
+            small = text; log.append("not shrunk (more than %s violations in this run)" % os.environ.get("VERIF_MAX_SHRUNK", "6"))
+        else:
+            small = shrink(info["flavour"], text, p, c, info["profile"], budget=int(os.environ.get("VERIF_SHRINK_BUDGET", "250")), log=log)
         os.makedirs(replay_dir, exist_ok=True)
         name = re.sub(r"[^A-Za-z0-9_.-]+", "_", c)[:80] + "-" + hashlib.sha256(small.encode()).hexdigest()[:8] + ".plan"
         path = os.path.join(replay_dir, name)
